@@ -249,6 +249,22 @@ def pes_shapes(rng):
             out.append(pes_valid(rng, True, fill, hd_len=0, w2=0, afc=afc))
             for n in (0, 1, 5, 10, 19, 40):
                 out.append(pes_valid(rng, True, fill, hd_len=n, w2=rng.choice([0x00, 0x80, 0xC0, rng.randrange(256)]), afc=afc))
+    for n in (0, 1, 2, 3, 4):                              # short header-less packets filled by adaptation stuffing:
+        for first in (None, 0x80, 0x8F):                   # fewer than 3 bytes after the prefix leave no room for the peek
+            f, avail = pkt_exact(rng, afc=3, room=6 + n)
+            tries = 0
+            while avail != 6 + n and tries < 200:
+                f, avail = pkt_exact(rng, afc=3, room=6 + n); tries += 1
+            if avail != 6 + n:
+                continue
+            d = bytearray(rng.bytes_(n))
+            if n and first is not None:
+                d[0] = first
+            if n >= 3 and (d[0] >> 4) == 8:
+                d[0] ^= 0x40                               # K2 again from 3 bytes on
+            f["streamid"] = str(rng.boundary(8)); f["pesdata"] = hexb(bytes(d))
+            f["extension_w1"] = f["extension_w2"] = f["header_data"] = "None"
+            out.append(f)
     return out
 
 def stanag_valid(rng, header=None, avoid_k2=True):
@@ -977,7 +993,7 @@ def _check_pes(args, cls="PES"):
     data = bytes(p.pesdata)
     exp_payload = _pes_expected_payload(p)
     used = 4 + len(afb) + len(exp_payload)
-    if used > 188 or (has_hdr and used != 188) or len(exp_payload) < 9:
+    if used > 188 or (has_hdr and used != 188):
         return None, {}      # the optional header is only recognisable in a PES packet that fills the TS packet
     hdr = hdr_expected(p)
     want = (p.streamid, p.extension_w1, p.extension_w2, None if p.header_data is None else bytes(p.header_data))
@@ -988,7 +1004,7 @@ def _check_pes(args, cls="PES"):
     exp = hdr + afb + exp_payload + b"\xff" * (188 - used)
     if b != exp:
         return "%s.pack emits %s, the ISO 13818-1 layout is %s" % (cls, hexb(b), hexb(exp)), {"check": "layout"}
-    looks = (not has_hdr) and used == 188 and len(data) > 0 and (data[0] >> 4) == 8
+    looks = (not has_hdr) and used == 188 and len(data) >= 3 and (data[0] >> 4) == 8   # the peek needs 3 bytes
     tags = {"check": "roundtrip"}
     if looks:
         tags["heuristic"] = "optional_header"
@@ -1441,10 +1457,10 @@ def ref_pkt_accepts(b):
 
 def ref_pes_accepts(b):
     ok, pl = ref_pkt_accepts(b)
-    if not ok or len(pl) < 6 or pl[0:3] != b"\x00\x00\x01" or len(pl) < 9:
+    if not ok or len(pl) < 6 or pl[0:3] != b"\x00\x00\x01":
         return False, None
     ln = int.from_bytes(pl[4:6], "big")
-    if (pl[6] >> 4) == 8 and len(pl) == ln + 6:
+    if len(pl) >= 9 and (pl[6] >> 4) == 8 and len(pl) == ln + 6:   # fewer than 3 bytes after the prefix: no optional header
         return True, pl[9 + pl[8]:]
     return True, pl[6:]
 
